@@ -64,6 +64,7 @@ fn random(a: &Args) {
     for k in 0..count + funnel + chain {
         shredh::unwind::set(rng.gen_bool(a.num("punwind", 0.1)));
         shredh::record::set_early_pool(rng.gen_bool(0.3));
+        shredh::build::set_noise(if rng.gen_bool(0.2) { 0.06 } else { 0.0 });
         if k >= count {
             let prog = if k >= count + funnel { shredh::prog::gen_chain(&mut rng) } else { shredh::prog::gen_funnel(&mut rng) };
             let mut res = Vec::new();
@@ -149,6 +150,7 @@ fn replay_chunk(lines: &[String], first_no: usize, seed: u64, variants: usize, k
         let sample_this = acc.written < keep && rng.gen_bool(0.01);
         shredh::unwind::set(rng.gen_bool(0.02));
         shredh::record::set_early_pool(rng.gen_bool(0.3));
+        shredh::build::set_noise(if rng.gen_bool(0.2) { 0.06 } else { 0.0 });
         let mut buf: Vec<Value> = Vec::new();
         let mut any_drift = false;
         for v in 0..variants {
@@ -253,6 +255,7 @@ fn sendable(a: &Args) {
     for k in 0..count {
         shredh::unwind::set(rng.gen_bool(0.1));
         shredh::record::set_early_pool(rng.gen_bool(0.3));
+        shredh::build::set_noise(if rng.gen_bool(0.2) { 0.06 } else { 0.0 });
         let mut cfg = base.clone();
         cfg.p_tl = *[0.0, 0.0, 0.05, 0.3].get(rng.gen_range(0..4)).unwrap();
         let prog = gen_prog(&mut rng, &cfg, 0, "");
